@@ -23,7 +23,7 @@ const TOGGLES: [GatherToggle; 3] = [GatherToggle::Skip, GatherToggle::Try, Gathe
 const VOUT: [VO; 4] = [VO::Valid, VO::Silent, VO::Malformed, VO::ChallengeThenSilent];
 const UOUT: [GO; 3] = [GO::Valid, GO::Silent, GO::Malformed];
 
-pub const VALVE_CELLS: u64 = 3 * 3 * 4 * 4 * 4 * 2;
+pub const VALVE_CELLS: u64 = 3 * 3 * 4 * 4 * 4 * 2 * 2;
 pub const U2_CELLS: u64 = 3 * 3 * 3 * 3;
 
 #[derive(Debug, Clone, Copy, PartialEq, Eq)]
@@ -63,6 +63,30 @@ fn kinds_requested(w: &World, pred: &dyn Fn(&[u8]) -> Option<u8>) -> Vec<u8> {
     v
 }
 
+#[allow(clippy::too_many_arguments)]
+fn cell_desc_early(pt: GatherToggle, po: VO, rt: GatherToggle, ro: VO, rel: u64, check: bool, has_ded: bool, generic: bool) -> String {
+    format!(
+        "valve players={pt:?}/{po:?} rules={rt:?}/{ro:?} appid-relation={} expectation={} check={check} path={}",
+        ["main", "dedicated", "other", "none"][rel as usize],
+        if has_ded { "main+dedicated" } else { "main only" },
+        if generic { "definition-driven + ExtraRequestSettings" } else { "valve::query" }
+    )
+}
+
+#[allow(clippy::too_many_arguments)]
+fn finish(mut out: CaseOut, problems: Vec<(String, String, String, String)>, cell_desc: String, call: Call, run: crate::harness::RunOut, cell: u64, detail: bool, t: Tape) -> (CaseOut, Tape) {
+    for (sig, what, e, o) in problems {
+        out.violate(Violation::new(sig, format!("[{cell_desc}] {what}"), e, o));
+    }
+    out.absorb(&run.world);
+    out.nontrivial = true;
+    out.distinct_key = crate::rng::mix(&[out.log_hash, cell]);
+    if detail {
+        out.sample = Some(json!({"call": describe_call(&call), "cell": cell_desc, "result": describe_result(&run.result, &run.crash)}));
+    }
+    (out, t)
+}
+
 impl Prop for C11 {
     fn id(&self) -> &'static str { "C11" }
 
@@ -96,8 +120,23 @@ impl Prop for C11 {
             let rel = c % 4; // 0 main, 1 dedicated, 2 other, 3 no expectation
             c /= 4;
             let check = c % 2 == 0;
-            let (main, ded) = (10 + t.draw(CFG, 1_000_000) as u32, 2_000_000 + t.draw(CFG, 1_000_000) as u32);
-            let engine = if rel == 3 { Engine::Source(None) } else { Engine::new_with_dedicated(main, ded) };
+            c /= 2;
+            // the expectation has a dedicated-server id or only a main id
+            let has_ded = c % 2 == 0;
+            // odd repetitions go through the definition-driven entry point with ExtraRequestSettings
+            let generic = (idx / (VALVE_CELLS + U2_CELLS)) % 2 == 1 && rel != 3;
+            let (main, ded, game_id) = if generic {
+                if has_ded { (242_760u32, 556_450u32, "theforest") } else { (440u32, 2_000_000 + t.draw(CFG, 1_000_000) as u32, "teamfortress2") }
+            } else {
+                (10 + t.draw(CFG, 1_000_000) as u32, 2_000_000 + t.draw(CFG, 1_000_000) as u32, "")
+            };
+            let engine = if rel == 3 {
+                Engine::Source(None)
+            } else if has_ded {
+                Engine::new_with_dedicated(main, ded)
+            } else {
+                Engine::new(main)
+            };
             let reported = match rel {
                 0 => main,
                 1 => ded,
@@ -115,21 +154,43 @@ impl Prop for C11 {
                 }
                 _ => t.draw(CFG, 1 << 24) as u32,
             };
-            let st = ValveState::generate(&mut t, false, false, Some(reported), 6, 6);
+            let mut st = ValveState::generate(&mut t, false, false, Some(reported), 6, 6);
+            for p in &mut st.player_list {
+                // finite durations only: the response also travels as JSON here (NaN has no JSON form)
+                if !f32::from_bits(p.duration_bits).is_finite() {
+                    p.duration_bits = 1.5f32.to_bits();
+                }
+            }
             let gs = GatheringSettings { players: pt, rules: rt, check_app_id: check };
             let mut srv = ValveServer::new(st.clone());
             srv.outcomes[1] = vec![po];
             srv.outcomes[2] = vec![ro];
             srv.enc[1].challenge_rounds = t.draw(CFG, 2) as u8;
             srv.enc[2].challenge_rounds = t.draw(CFG, 2) as u8;
-            let call = Call { entry: Entry::Valve { engine, gather: Some(gs) }, ip: SERVER_IP, port: Some(port), default_port: port, timeout: None };
+            let entry = if generic {
+                Entry::Generic {
+                    game_id,
+                    extra: Some(gamedig::protocols::types::ExtraRequestSettings {
+                        hostname: None,
+                        protocol_version: None,
+                        gather_players: Some(pt),
+                        gather_rules: Some(rt),
+                        check_app_id: Some(check),
+                    }),
+                    level: 2,
+                }
+            } else {
+                Entry::Valve { engine, gather: Some(gs) }
+            };
+            let call = Call { entry, ip: SERVER_IP, port: Some(port), default_port: port, timeout: None };
             let mut w = World::new(t);
             w.add_server(addr, Proto::Udp, Box::new(srv));
             let mut run = run_call(w, &call);
             t = std::mem::replace(&mut run.world.tape, Tape::replay(Default::default()));
             // ---- oracle
             let requested = kinds_requested(&run.world, &|d| if d.len() >= 5 && d[.. 4] == [0xff; 4] { Some(d[4]) } else { None });
-            let bad_game = check && rel == 2;
+            // without a dedicated id in the expectation, the 'dedicated' id is a foreign one
+            let bad_game = check && (rel == 2 || (rel == 1 && !has_ded));
             let full = vm::normalise_response(vm::expected_response(&st, &engine, &GatheringSettings { players: GatherToggle::Enforce, rules: GatherToggle::Enforce, check_app_id: check }));
             // expected outcome
             let mut exp_err: Option<Fail> = None;
@@ -180,7 +241,16 @@ impl Prop for C11 {
                         }
                     }
                 }
-                (Some(Ok(crate::entry::Resp::Valve(r))), _) => {
+                (Some(Ok(resp)), _) => {
+                    let parsed: Option<gamedig::protocols::valve::Response> = match resp {
+                        crate::entry::Resp::Valve(r) => Some(r.clone()),
+                        crate::entry::Resp::Generic { original, .. } => original.get("Valve").and_then(|v| serde_json::from_value(v.clone()).ok()),
+                        _ => None,
+                    };
+                    let Some(r) = parsed.as_ref() else {
+                        problems.push(("valve|unexpected-response-type".into(), "response is not a Valve response".into(), "Valve".into(), resp.variant().into()));
+                        return finish(out, problems, cell_desc_early(pt, po, rt, ro, rel, check, has_ded, generic), call, run, cell, detail, t);
+                    };
                     if bad_game {
                         problems.push(("valve|appid/not-rejected".into(), "foreign app id with checking on must fail with BadGame".into(), "Err(BadGame)".into(), "Ok".into()));
                     } else if let Some(f) = exp_err {
@@ -208,7 +278,7 @@ impl Prop for C11 {
                 }
                 _ => {}
             }
-            (call, run, format!("valve players={pt:?}/{po:?} rules={rt:?}/{ro:?} appid-relation={} check={check}", ["main", "dedicated", "other", "none"][rel as usize]))
+            (call, run, cell_desc_early(pt, po, rt, ro, rel, check, has_ded, generic))
         } else {
             let mut c = cell - VALVE_CELLS;
             let rt = TOGGLES[(c % 3) as usize];
@@ -226,7 +296,17 @@ impl Prop for C11 {
             srv.outcomes[1] = vec![ro];
             srv.outcomes[2] = vec![po];
             let g = U2G { players: pt, mutators_and_rules: rt };
-            let call = Call { entry: Entry::Unreal2 { gather: g }, ip: SERVER_IP, port: Some(port), default_port: port, timeout: None };
+            let generic = (idx / (VALVE_CELLS + U2_CELLS)) % 2 == 1;
+            let entry = if generic {
+                Entry::Generic {
+                    game_id: "killingfloor",
+                    extra: Some(gamedig::protocols::types::ExtraRequestSettings { hostname: None, protocol_version: None, gather_players: Some(pt), gather_rules: Some(rt), check_app_id: None }),
+                    level: 2,
+                }
+            } else {
+                Entry::Unreal2 { gather: g }
+            };
+            let call = Call { entry, ip: SERVER_IP, port: Some(port), default_port: port, timeout: None };
             let mut w = World::new(t);
             w.add_server(addr, Proto::Udp, Box::new(srv));
             let mut run = run_call(w, &call);
@@ -270,7 +350,10 @@ impl Prop for C11 {
                         problems.push((format!("unreal2|enforce/failure-swallowed/{f:?}"), "an Enforce section failed but the query succeeded".into(), "Err".into(), "Ok".into()));
                     } else {
                         let mut exp = st.expected(exp_rules, exp_players);
-                        let mut obs = r.to_json();
+                        let mut obs = match r {
+                            crate::entry::Resp::Generic { original, .. } => original.get("Unreal2").cloned().unwrap_or(Value::Null),
+                            other => other.to_json(),
+                        };
                         um::canonicalise(&mut exp);
                         um::canonicalise(&mut obs);
                         if let Some((p, e, o)) = json_diff(&exp, &obs) {
@@ -281,7 +364,7 @@ impl Prop for C11 {
                 }
                 _ => {}
             }
-            (call, run, format!("unreal2 rules={rt:?}/{ro:?} players={pt:?}/{po:?}"))
+            (call, run, format!("unreal2 rules={rt:?}/{ro:?} players={pt:?}/{po:?} path={}", if generic { "definition-driven + ExtraRequestSettings" } else { "unreal2::query" }))
         };
         for (sig, what, e, o) in problems {
             out.violate(Violation::new(sig, format!("[{cell_desc}] {what}"), e, o));
